@@ -373,6 +373,28 @@ func (e *Engine) syntacticNonNil(v ssa.Value, depth int) bool {
 			case "fmt.Errorf", "errors.New":
 				return true
 			}
+			// an error constructor of the repository: every return of it is a
+			// definite (non-nil) error
+			if e.P.InRepo(cal) && cal.Blocks != nil && cal.Signature.Results().Len() == 1 && isErrorType(cal.Signature.Results().At(0).Type()) {
+				if v, ok := e.errCtor[cal]; ok {
+					return v
+				}
+				if e.errCtor == nil {
+					e.errCtor = map[*ssa.Function]bool{}
+				}
+				e.errCtor[cal] = false // recursion guard
+				all, n := true, 0
+				for _, b := range cal.Blocks {
+					if ret, ok := b.Instrs[len(b.Instrs)-1].(*ssa.Return); ok {
+						n++
+						if !e.syntacticNonNil(ret.Results[0], depth+1) {
+							all = false
+						}
+					}
+				}
+				e.errCtor[cal] = all && n > 0
+				return all && n > 0
+			}
 		}
 	case *ssa.UnOp:
 		if g, ok := x.X.(*ssa.Global); ok && isErrorType(x.Type()) && strings.HasPrefix(g.Name(), "Err") {
